@@ -5,7 +5,10 @@
     is defined somewhere under rocq/theories;
   * every finding id (C04-F2, C07-X-0a5a576, ...) is an entry of known_findings.json, and is described with the
     status it has there when the text says "fixed" / "known" right next to it (not checked: free prose);
-  * every 7-hex commit of /repo that is named exists in /repo's history.
+  * every 7-hex commit that is named exists in /repo's history (fix commits) or in /verif's own history (evidence /
+    seed commits such as ce2410d).
+A finding id may be written with a wildcard tail (C11-X-3370abe-* for C11-X-3370abe-bnode and -nonliteral): an id
+that is a proper prefix of existing ids, or an existing id followed by a further "-word" taken from the prose, is fine.
 exit 0 when clean, 1 otherwise (prints what is dangling)."""
 import json, os, re, subprocess, sys
 
@@ -35,6 +38,8 @@ def main():
     kf = {f["id"]: f for f in json.load(open(os.path.join(ROOT, "known_findings.json")))["findings"]}
     commits = set(subprocess.run(["git", "-C", REPO, "log", "--format=%h", "--abbrev=7"], capture_output=True,
                                  text=True).stdout.split())
+    own = set(subprocess.run(["git", "-C", ROOT, "log", "--all", "--format=%h", "--abbrev=7"], capture_output=True,
+                             text=True).stdout.split())
     design = open(os.path.join(ROOT, "DESIGN.md")).read()
     # only the as-built parts are held to this standard (sections 1-10 are the design written before the code)
     built = design.split("## 0. One-paragraph summary")[0] + "## 11." + design.split("## 11.", 1)[-1]
@@ -51,12 +56,13 @@ def main():
         if n2 not in names and n not in names and not any(m.startswith(n2) for m in names):
             bad.append("name %s (MANIFEST.json / DESIGN.md): not defined under rocq/theories" % n)
     for fid in sorted(set(re.findall(r"\b(C\d\d-(?:F\d+r?|R\d+|X-[0-9a-f]{7}(?:-[a-z]+)?))\b", built + manifest))):
-        if fid not in kf:
+        base = re.sub(r"^(C\d\d-X-[0-9a-f]{7})-[a-z]+$", r"\1", fid)
+        if fid not in kf and base not in kf and not any(k.startswith(fid + "-") or k.startswith(base + "-") for k in kf):
             bad.append("finding id %s is not in known_findings.json" % fid)
     for c in sorted(set(re.findall(r"\b([0-9a-f]{7})\b", built))):
-        if re.search(r"[a-f]", c) and re.search(r"[0-9]", c) and c not in commits:
+        if re.search(r"[a-f]", c) and re.search(r"[0-9]", c) and c not in commits and c not in own:
             # hex-looking words that are not commits (hashes of replays etc.) are rare in the text; report them
-            bad.append("DESIGN.md names commit %s: not in %s's history" % (c, REPO))
+            bad.append("DESIGN.md names commit %s: neither in %s's history nor in /verif's" % (c, REPO))
     for f in kf.values():
         if f["status"] == "fixed":
             for c in str(f.get("commit", "")).split("+"):
